@@ -146,7 +146,7 @@ def check(ctx):
                 if not cands or not ok:
                     ctx.violation("exec-marker:" + text, text, "a marker inside the input whose prefix is lexically valid",
                                   "caret column %d, candidates %s" % (col, cands), how)
-        if len(cases) < ctx.n(6000, 60000):
+        if len(cases) < ctx.n(6000, 150000):
             st = stages(text)
             if st is not None:
                 real = ("escaped " + r["escaped"]) if r["escaped"] else "done %d %s %s" % (r["status"], str(r["out"] != "").lower(), str(r["err"] != "").lower())
@@ -185,11 +185,11 @@ def check(ctx):
     # ---- (ii) token soups, (iii) arbitrary characters
     atoms = ["1", "2.5", "1e3", "0x1f", "x", "pi", "m", "s", "kg", "sin", "(", ")", "{", "}", "[", "]", ",", ":", ";", "+", "-", "*", "/", "%", "^",
              "!", "|", "..", "<", "<=", "==", "!=", ">", ">=", "=", "to", "in", "±", "\"a\"", "#2020-01-01#", "C", "sum", "1..3", "€", "$", "μm", "#", "\""]
-    for _ in range(ctx.n(1500, 30000)):
+    for _ in range(ctx.n(1500, 120000)):
         n = rng.randrange(1, 9)
         run(rng.choice(["", " "]).join(rng.choice(atoms) for _ in range(n)), "soup")
     alphabet = "0123456789abcxyzemsEXC_.+-*/%^!|<>=(){}[],:;\"# \t\n€$£¥±μ\\'&?@~`"
-    for _ in range(ctx.n(1500, 30000)):
+    for _ in range(ctx.n(1500, 120000)):
         run("".join(rng.choice(alphabet) for _ in range(rng.randrange(0, 14))), "chars")
     for text in ["", " ", ";", ";;", "1;", ";1", "%", "(", ")", "1 +", "x =", "=", "1e", "1e-", "0x", "0b2", "#", "\"", "{", "[1,", "f(", "f(1,", "1..", "..1",
                  "1 to", "to m", "1 m to", "1 m |", "1 m^", "1 m^x", "1 m^1.5", "instant", "1.5e400", "2^20000", "10^5000/3", "1/(10^400) + 0.5",
@@ -209,7 +209,7 @@ def check(ctx):
     import importlib
     sys.path.insert(0, os.path.join(core.VERIF, "harness", "props"))
     C01 = importlib.import_module("props.C01")
-    for _ in range(ctx.n(300, 5000)):
+    for _ in range(ctx.n(300, 20000)):
         t = C01.gen_tree(rng, rng.randrange(1, 6))
         run(C01.render_min(t), "arith")
     # ---- (v) interpreter commands
